@@ -72,6 +72,8 @@ var faithfulTags = []string{
 	"", "v", "v,a", "v,a=1", "v,a=1 2", "v,a=[1 2] 3", "v,a=(x,y) z", "[a,b],x=1", "v,a=1,b=2 3,c", "v,A=1", "v,required=false", "v,Required=false",
 	"v,required=true", "v,required", "v,a=1,a=2", "${k:[1,2]},x={a,b} c", "${a.b:d},required=false", "v,a=1=2", "v,a=", " v ,a= 1", "v,timeLayout=2006-01-02",
 	"name,qualifier=x y", "v,,a=1", "v,=x", ",a=1", "#{1+2},validate=min=1 max=3", "v,a=[x,y],b={p q}", "日本,arg=本 語",
+	// groups nested in groups of the same kind, separators inside the outer one after the inner one has ended
+	"${g.${l:en}:Hello, world},x=1", "#{max(${a:1},${b:2})},k", "[[1,2],[3,4]],k=[[a b] c] d", "v,a=((x y) z) w",
 }
 
 var totalityTags = []string{",", ",,", "=", ",=", ",=,", "[", "]", "v,[", "v,a=[", "v,]", "v,a=]", "((", "))", "v, ", "v,\t", " ", "v,a=  ", "}{", "v,{a=1", "v,a=1}", ",,,=,,", "\x00,\xff=\xfe", "v,=", "v,a==", "[,],(,)", "日本,語=本 語", "v,é=1,©=2"}
